@@ -1,9 +1,96 @@
-/- Driver operations for C08 (stub: to be filled by the property's model). -/
+/- Driver operations for C08 (block-diagonal semantics): `Model/BlockDiag.lean` at `Rat` and `Float`.
+
+  * `ds_plan`   : statistic slots of every leaf of a tree (block, axis, slice, size), exponent, `max_size`, padding starts
+  * `tf_plan`   : Tearfree blocks-axis slots of one tensor
+  * `tf_mask`   : eigenvalue cut per block (`batchedMask`, the repaired code) and relative to the maximum over all blocks
+                  (`sharedMask`, D7) on exact rational spectra
+  * `newton_pad`: the masked coupled Newton routine on `pad(A, N)` with `padding_start = s` (`paddedRoot`, and the
+                  uncut root) and on `A` itself (`rootA s s`): an executed instance of `root_padding_invariant_newton`
+-/
 import PrecondVerif.Kit.Proto
+import PrecondVerif.Model.BlockDiag
 
 namespace PrecondVerif.Drv.C08
-open Lean PrecondVerif.Proto
+open Lean PrecondVerif.Proto PrecondVerif.BlockDiag
 
-def ops : List Op := []
+instance : Zero Float := ⟨0.0⟩
+instance : One Float := ⟨1.0⟩
+
+def slotJson (s : Slot) : Json :=
+  obj [("block", toJson s.block), ("axis", toJson s.axis),
+       ("slice", listToJson (fun (p : Nat × Nat) => natsToJson [p.1, p.2]) s.slice), ("size", toJson s.size)]
+
+def matOfList {α : Type} [Zero α] (n : Nat) (l : List α) : A2 α :=
+  let arr := l.toArray
+  tabM n fun i j => arr.getD (i * n + j) 0
+
+def matToJson {α : Type} [Zero α] (f : α → Json) (n : Nat) (a : A2 α) : Json :=
+  Json.arr ((List.range n).flatMap fun i => (List.range n).map fun j => f (rdM a i j)).toArray
+
+def tryJson {α : Type} [Zero α] (f : α → Json) (n : Nat) (r : Nat × Try α) : Json :=
+  obj [("retries", toJson r.1), ("h", matToJson f n r.2.h), ("err", f r.2.err), ("iters", toJson r.2.iters),
+       ("ratio", f r.2.ratio)]
+
+/-- all entries outside `[0,s)²` of an `N × N` tabulated matrix are (exactly) zero -/
+def outsideZero {α : Type} [Zero α] [BEq α] (s N : Nat) (a : A2 α) : Bool :=
+  (List.range N).all fun i => (List.range N).all fun j => (i < s && j < s) || rdM a i j == 0
+
+def newtonPad {α : Type} [Zero α] [One α] [Add α] [Sub α] [Mul α] [Div α] [Neg α] [LT α] [DecidableLT α] [BEq α]
+    (f : α → Json) (s N : Nat) (c : Cfg α) (ridge : α) (a : A2 α) : Json :=
+  let padded := paddedRoot N s c ridge a
+  let plain := rootA s s c ridge a
+  let uncut := rootA N s c ridge (padSq s N a)
+  obj [("padded", tryJson f s padded), ("plain", tryJson f s plain),
+       ("outside_zero", Json.bool (outsideZero s N uncut.2.h)),
+       ("same", Json.bool (padded.1 == plain.1 && padded.2.iters == plain.2.iters && padded.2.err == plain.2.err
+          && padded.2.ratio == plain.2.ratio
+          && (List.range s).all fun i => (List.range s).all fun j => rdM padded.2.h i j == rdM plain.2.h i j))]
+
+def ops : List Op := [
+  ("ds_plan", fun j => do
+    let shapes ← asListOf (asListOf asNat) (← field j "leaves")
+    let b ← getNat j "block"
+    let slots := shapes.map fun sh => dsSlots sh b
+    let leaves : List (List (Stat Nat)) := slots.map fun l => l.map fun s => ⟨s.size, #[]⟩
+    pure (obj [
+      ("leaves", listToJson (fun (p : List Nat × List Slot) =>
+        obj [("slots", listToJson slotJson p.2), ("exponent", toJson (2 * p.1.length)),
+             ("nblocks", toJson ((cart (p.1.map fun d => pieces (splitSizes d b) 0)).length))]) (shapes.zip slots)),
+      ("max_size", toJson (maxSizeOf leaves)),
+      ("paddings", natsToJson (leaves.flatten.map (·.size))),
+      ("counts", natsToJson (leaves.map List.length))])),
+  ("tf_plan", fun j => do
+    let shape ← getNats j "shape"
+    let b ← getNat j "block"
+    let slots := tfSlots shape b
+    pure (obj [("slots", listToJson slotJson slots),
+               ("nblocks", toJson ((cart (shape.map fun d => tfPieces d b)).length)),
+               ("block_sizes", natsToJson (shape.map fun d => min d b))])),
+  ("tf_mask", fun j => do
+    let ws ← asListOf (asListOf asRat) (← field j "ws")
+    let eps ← getRat j "eps"
+    let bj := fun (m : List (List Bool)) => listToJson (fun (r : List Bool) => Json.arr (r.map Json.bool).toArray) m
+    pure (obj [("local", bj (batchedMask eps ws)), ("map_local", bj (ws.map (localMask eps))),
+               ("shared", bj (sharedMask eps ws))])),
+  ("newton_pad", fun j => do
+    let ty ← getStr j "ty"
+    let s ← getNat j "s"
+    let N ← getNat j "N"
+    let p ← getNat j "p"
+    let fuel ← getNat j "fuel"
+    let tries ← getNat j "tries"
+    if ty == "rat" then
+      let a ← getRats j "A"
+      let ridge ← getRat j "ridge"
+      let c : Cfg Rat := ⟨p, (p : Rat), ← getRat j "tol", ← getRat j "max_ratio", ← getRat j "retry_thr", fuel, tries, 10,
+        fun x => (x + 1) / 2, fun x => x⟩
+      pure (newtonPad ratToJson s N c ridge (matOfList s a))
+    else
+      let a ← getFloats j "A"
+      let ridge ← asFloat (← field j "ridge")
+      let c : Cfg Float := ⟨p, Float.ofNat p, ← asFloat (← field j "tol"), ← asFloat (← field j "max_ratio"),
+        ← asFloat (← field j "retry_thr"), fuel, tries, 10.0, Float.sqrt, fun z => Float.pow z (1.0 / Float.ofNat p)⟩
+      pure (newtonPad floatToJson s N c ridge (matOfList s a)))
+]
 
 end PrecondVerif.Drv.C08
